@@ -112,6 +112,7 @@ func runC04(p *core.Prog, r *core.Report) {
 	c10R2(p, r, "C04.R14")
 	// a child that waited for a shared blob learns whether that copy failed (shared with C03.R4)
 	c03R4(p, r, "C04.R15")
+	refIdentityRule(p, r, "C04.R16")
 }
 
 // resolveLit returns the function literal a go statement runs: a literal, or a local variable
@@ -1686,4 +1687,64 @@ func callersPassFailure(p *core.Prog, fn *ssa.Function, errT types.Type) bool {
 		}
 	}
 	return true
+}
+
+// ---------------------------------------------------------------------------------------------
+// two references name the same repository only if their own fields say so
+
+// refIdentityRule: the copy takes "source and target are the same repository" as "every blob and
+// child manifest is already there" and writes only the top manifest and the tag. That answer has to
+// come from the references' own fields. A comparison through a lossy rewriting (ToReg lower-cases a
+// layout path, turns punctuation into '-', drops a leading "..") makes two different directories equal,
+// and a copy between them publishes a tag whose children were never written.
+func refIdentityRule(p *core.Prog, r *core.Report, rule string) {
+	r.Rule(rule, "same repository means equal fields: in ref.EqualRepository and ref.EqualRegistry every compared operand is a field of one of the two references, at most passed through a path-cleaning function of path / path/filepath — never the result of a module function or of a string-rewriting function", 2)
+	n := 0
+	for _, name := range []string{"EqualRepository", "EqualRegistry"} {
+		fn := p.Func("types/ref", name)
+		if fn == nil {
+			r.MissingAnchor(rule, "types/ref."+name)
+			continue
+		}
+		lab := labeler{}
+		for _, g := range sortedFuncs(core.Helpers(fn, 2)) {
+			for _, b := range g.Blocks {
+				for _, in := range b.Instrs {
+					bo, ok := in.(*ssa.BinOp)
+					if !ok || (bo.Op != token.EQL && bo.Op != token.NEQ) || !isStringType(bo.X.Type()) {
+						continue
+					}
+					if _, isC := bo.X.(*ssa.Const); isC {
+						continue
+					}
+					if _, isC := bo.Y.(*ssa.Const); isC {
+						continue
+					}
+					n++
+					bad := ""
+					for _, side := range []ssa.Value{bo.X, bo.Y} {
+						for _, o := range core.Origins(side, core.SliceOpts{FieldsThrough: true}) {
+							if o.Kind != core.OCall {
+								continue
+							}
+							cal := o.Callee()
+							if cal == nil || cal.Pkg() == nil {
+								continue
+							}
+							switch cal.Pkg().Path() {
+							case "path", "path/filepath":
+								continue
+							}
+							bad = core.ShortFunc(cal)
+						}
+					}
+					r.Check(bad == "", rule, p.FuncName(g), lab.next("compared operands"), p.Pos(bo.Pos()),
+						"the references are compared through "+bad+", not by their own fields: two references that differ can come out equal, and the copy between them is taken for a retag in place (only the top manifest and the tag are written)")
+				}
+			}
+		}
+	}
+	if n == 0 {
+		r.MissingAnchor(rule, "string comparisons in ref.EqualRepository / EqualRegistry")
+	}
 }
